@@ -56,13 +56,16 @@ func funcKey(f *types.Func) string {
 		}
 		if n, ok := types.Unalias(t).(*types.Named); ok {
 			recv = n.Obj().Name() + "."
+			if cn, renamed := canonType[n.Obj()]; renamed {
+				recv = cn + "."
+			}
 		}
 	}
 	pkg := ""
 	if f.Pkg() != nil {
 		pkg = f.Pkg().Path()
 	}
-	return pkg + "." + recv + f.Name()
+	return pkg + "." + recv + funcObjName(f)
 }
 
 var knownFuncsCache map[string]string
@@ -149,6 +152,7 @@ type funcSrc struct {
 }
 
 type inlineGroup struct {
+	imports    map[string]string // import path → alias needed in the file
 	file       string
 	start, end int // span of the statement in the file (offsets)
 	edits      []srcEdit
@@ -169,6 +173,8 @@ type inliner struct {
 	srcs    map[string][]byte
 	round   int
 	counter int
+	// imports already added to a file ("file|path"), across rounds
+	importsAdded map[string]bool
 }
 
 func (il *inliner) src(file string) []byte {
@@ -266,6 +272,30 @@ func (il *inliner) planRound() (int, []string) {
 	for _, g := range kept {
 		byFile[g.file] = append(byFile[g.file], g.edits...)
 		notes = append(notes, g.note)
+	}
+	// imports needed by inlined bodies whose package names are shadowed at the call site
+	for _, g := range kept {
+		for path, alias := range g.imports {
+			key := g.file + "|" + path
+			if il.importsAdded[key] {
+				continue
+			}
+			il.importsAdded[key] = true
+			for _, p := range il.pkgs {
+				for i, f := range p.Syntax {
+					if p.CompiledGoFiles[i] == g.file {
+						if alias == "" {
+							// a type / constant alias declaration, appended to the file
+							at := len(il.src(g.file))
+							byFile[g.file] = append(byFile[g.file], srcEdit{off: at, end: at, text: "\n" + path + "\n"})
+							continue
+						}
+						at := il.off(f.Name.End())
+						byFile[g.file] = append(byFile[g.file], srcEdit{off: at, end: at, text: fmt.Sprintf("; import %s %q", alias, path)})
+					}
+				}
+			}
+		}
 	}
 	for file, eds := range byFile {
 		sort.SliceStable(eds, func(i, j int) bool {
@@ -436,12 +466,14 @@ func (il *inliner) eligible(fs *funcSrc, self *types.Func) bool {
 
 // hygienic: every identifier of the callee's declaration that refers to a package-level
 // object, an import or a universe object resolves to the same thing at the call site.
-func (il *inliner) hygienic(fs *funcSrc, caller *packages.Package, at token.Pos) bool {
+func (il *inliner) hygienic(fs *funcSrc, caller *packages.Package, at token.Pos) (bool, map[token.Pos]string, map[string]string) {
 	inner := caller.Types.Scope().Innermost(at)
 	if inner == nil {
-		return false
+		return false, nil, nil
 	}
 	ok := true
+	repl := map[token.Pos]string{} // identifier position in the callee → replacement name
+	imports := map[string]string{} // import path → alias to add to the caller's file
 	var check func(n ast.Node)
 	check = func(n ast.Node) {
 		if n == nil {
@@ -460,17 +492,40 @@ func (il *inliner) hygienic(fs *funcSrc, caller *packages.Package, at token.Pos)
 			if obj == nil {
 				return true
 			}
-			_, isPkgName := obj.(*types.PkgName)
+			pn, isPkgName := obj.(*types.PkgName)
 			if !(isPkgName || obj.Parent() == types.Universe || (obj.Pkg() != nil && obj.Parent() == obj.Pkg().Scope())) {
 				return true
 			}
 			_, found := inner.LookupParent(id.Name, at)
 			if isPkgName {
 				fp, isP := found.(*types.PkgName)
-				if !isP || fp.Imported().Path() != obj.(*types.PkgName).Imported().Path() {
-					ok = false
+				if !isP || fp.Imported().Path() != pn.Imported().Path() {
+					// the import is shadowed (or named differently) at the call site: refer to
+					// the package through a fresh alias added to the caller's file
+					alias := "pkg__" + sanitizeIdent(pn.Imported().Path())
+					repl[id.Pos()] = alias
+					imports[pn.Imported().Path()] = alias
 				}
 			} else if found != obj {
+				// a package-level type or constant shadowed at the call site is reached through
+				// an alias declared at the end of the caller's file (an alias denotes the same
+				// type / the same constant value); anything else cannot be referred to
+				switch obj.(type) {
+				case *types.TypeName:
+					if obj.Parent() == obj.Pkg().Scope() {
+						alias := "typ__" + obj.Name()
+						repl[id.Pos()] = alias
+						imports["type "+alias+" = "+obj.Name()] = ""
+						return ok
+					}
+				case *types.Const:
+					if obj.Parent() == obj.Pkg().Scope() {
+						alias := "cst__" + obj.Name()
+						repl[id.Pos()] = alias
+						imports["const "+alias+" = "+obj.Name()] = ""
+						return ok
+					}
+				}
 				ok = false
 			}
 			return ok
@@ -481,7 +536,47 @@ func (il *inliner) hygienic(fs *funcSrc, caller *packages.Package, at token.Pos)
 	}
 	check(fs.decl.Type)
 	check(fs.decl.Body)
-	return ok
+	return ok, repl, imports
+}
+
+func sanitizeIdent(s string) string {
+	var b strings.Builder
+	for _, c := range s {
+		if (c >= 'a' && c <= 'z') || (c >= 'A' && c <= 'Z') || (c >= '0' && c <= '9') {
+			b.WriteRune(c)
+		} else {
+			b.WriteByte('_')
+		}
+	}
+	return b.String()
+}
+
+// calleeText copies the callee's source between two positions with shadowed import names
+// replaced by their aliases.
+func (il *inliner) calleeText(fs *funcSrc, from, to token.Pos, repl map[token.Pos]string) string {
+	text := []byte(il.text(fs.file, from, to))
+	if len(repl) == 0 {
+		return string(text)
+	}
+	base := il.off(from)
+	type red struct {
+		off, end int
+		text     string
+	}
+	var reds []red
+	ast.Inspect(fs.decl, func(n ast.Node) bool {
+		if id, ok := n.(*ast.Ident); ok {
+			if r, ok := repl[id.Pos()]; ok && id.Pos() >= from && id.End() <= to {
+				reds = append(reds, red{il.off(id.Pos()) - base, il.off(id.End()) - base, r + il.lineDir(id.End())})
+			}
+		}
+		return true
+	})
+	sort.Slice(reds, func(i, j int) bool { return reds[i].off > reds[j].off })
+	for _, r := range reds {
+		text = append(text[:r.off:r.off], append([]byte(r.text), text[r.end:]...)...)
+	}
+	return string(text)
 }
 
 func (il *inliner) tryStmt(p *packages.Package, file string, s ast.Stmt) (inlineGroup, bool) {
@@ -543,10 +638,12 @@ func (il *inliner) tryStmt(p *packages.Package, file string, s ast.Stmt) (inline
 			return g, false
 		}
 	}
-	if !il.hygienic(fs, p, call.Pos()) {
+	hyg, repl, imports := il.hygienic(fs, p, call.Pos())
+	if !hyg {
 		dbg("an identifier of the callee resolves differently at the call site")
 		return g, false
 	}
+	g.imports = imports
 	il.counter++
 	id := fmt.Sprintf("%d_%d", il.round, il.counter)
 	fd := fs.decl
@@ -555,7 +652,7 @@ func (il *inliner) tryStmt(p *packages.Package, file string, s ast.Stmt) (inline
 	var resVars, resTypes, resNames []string
 	if fd.Type.Results != nil {
 		for _, f := range fd.Type.Results.List {
-			t := il.text(fs.file, f.Type.Pos(), f.Type.End())
+			t := il.calleeText(fs, f.Type.Pos(), f.Type.End(), repl)
 			n := len(f.Names)
 			if n == 0 {
 				n = 1
@@ -582,7 +679,7 @@ func (il *inliner) tryStmt(p *packages.Package, file string, s ast.Stmt) (inline
 	var inner, outer []string
 	if sig.Recv() != nil {
 		rf := fd.Recv.List[0]
-		rt := il.text(fs.file, rf.Type.Pos(), rf.Type.End())
+		rt := il.calleeText(fs, rf.Type.Pos(), rf.Type.End(), repl)
 		av := fmt.Sprintf("a__%s_r", id)
 		fmt.Fprintf(&b, "var %s %s = %s; _ = %s; ", av, rt, recvText, av)
 		if len(rf.Names) == 1 && rf.Names[0].Name != "_" {
@@ -592,7 +689,7 @@ func (il *inliner) tryStmt(p *packages.Package, file string, s ast.Stmt) (inline
 	}
 	ai := 0
 	for _, f := range fd.Type.Params.List {
-		t := il.text(fs.file, f.Type.Pos(), f.Type.End())
+		t := il.calleeText(fs, f.Type.Pos(), f.Type.End(), repl)
 		for _, nm := range f.Names {
 			av := fmt.Sprintf("a__%s_%d", id, ai)
 			at := il.text(file, call.Args[ai].Pos(), call.Args[ai].End())
@@ -626,7 +723,7 @@ func (il *inliner) tryStmt(p *packages.Package, file string, s ast.Stmt) (inline
 	label := "L__" + id
 	fmt.Fprintf(&b, "%s: for { ", label)
 	// body with returns rewritten
-	body := il.bodyText(fs, label, resVars, resNames)
+	body := il.bodyText(fs, label, resVars, resNames, repl)
 	b.WriteString(il.lineDir(fd.Body.Lbrace + 1))
 	b.WriteString(body)
 	fmt.Fprintf(&b, "; break %s }}}; ", label)
@@ -654,10 +751,11 @@ func (il *inliner) tryStmt(p *packages.Package, file string, s ast.Stmt) (inline
 
 // bodyText copies the callee's body (between the braces) with every return statement that
 // belongs to the callee itself (not to a function literal inside it) rewritten.
-func (il *inliner) bodyText(fs *funcSrc, label string, resVars, resNames []string) string {
+func (il *inliner) bodyText(fs *funcSrc, label string, resVars, resNames []string, repl map[token.Pos]string) string {
 	fd := fs.decl
 	base := il.off(fd.Body.Lbrace + 1)
 	text := []byte(il.text(fs.file, fd.Body.Lbrace+1, fd.Body.Rbrace))
+	idRepl := repl
 	type red struct {
 		off, end int
 		text     string
@@ -676,7 +774,7 @@ func (il *inliner) bodyText(fs *funcSrc, label string, resVars, resNames []strin
 			case len(x.Results) == 0:
 				t = strings.Join(resVars, ", ") + " = " + strings.Join(resNames, ", ") + "; break " + label
 			default:
-				exprs := il.text(fs.file, x.Results[0].Pos(), x.Results[len(x.Results)-1].End())
+				exprs := il.calleeText(fs, x.Results[0].Pos(), x.Results[len(x.Results)-1].End(), idRepl)
 				t = strings.Join(resVars, ", ") + " = " + il.lineDir(x.Results[0].Pos()) + exprs + "; break " + label
 			}
 			t += il.lineDir(x.End())
@@ -686,6 +784,23 @@ func (il *inliner) bodyText(fs *funcSrc, label string, resVars, resNames []strin
 		return true
 	}
 	ast.Inspect(fd.Body, walk)
+	// shadowed import names outside the rewritten returns
+	ast.Inspect(fd.Body, func(n ast.Node) bool {
+		if id, ok := n.(*ast.Ident); ok {
+			if rn, ok := idRepl[id.Pos()]; ok {
+				inRet := false
+				for _, r := range reds {
+					if il.off(id.Pos())-base >= r.off && il.off(id.End())-base <= r.end {
+						inRet = true
+					}
+				}
+				if !inRet {
+					reds = append(reds, red{il.off(id.Pos()) - base, il.off(id.End()) - base, rn + il.lineDir(id.End())})
+				}
+			}
+		}
+		return true
+	})
 	sort.Slice(reds, func(i, j int) bool { return reds[i].off > reds[j].off })
 	for _, r := range reds {
 		text = append(text[:r.off:r.off], append([]byte(r.text), text[r.end:]...)...)
